@@ -4,6 +4,7 @@ handle the groups of equal keys (deeper insertion sort / finished) and the LCPs 
 -/
 import TlxVerif.Proofs.C04Mkqs
 namespace TlxVerif.C04
+variable {af : Bool}
 
 theorem lcpOk_set0 {out : List Str} {l : List Nat} (h : lcpOk out l) (v : Nat) : lcpOk out (l.set 0 v) := by
   refine ⟨by simp [h.1], ?_⟩
@@ -55,7 +56,7 @@ theorem insGroups_safe (p : Str) :
     ∀ (g : Nat) (sk : List (Str × Key)) (prev : Option Key), sk.length < g →
       (∀ q ∈ sk, InRange p q.1 ∧ getKey? q.1 p.length = some q.2) →
       sk.Pairwise (fun a b => a.2 ≤ b.2) →
-      Safe (insGroups p.length prev g sk) (GroupsOk p prev sk) := by
+      Safe af (insGroups p.length prev g sk) (GroupsOk p prev sk) := by
   intro g
   induction g with
   | zero => intro sk prev h; omega
@@ -213,7 +214,7 @@ theorem insGroups_safe (p : Str) :
 
 /-- **`insertion_sort_cache<false>` is correct.** -/
 theorem insCacheBody_safe {p : Str} {strs : List Str} (hr : RangeOk p strs) :
-    Safe (insCacheBody strs p.length) (SortedLcp strs) := by
+    Safe af (insCacheBody strs p.length) (SortedLcp strs) := by
   unfold insCacheBody
   by_cases hn : strs.length ≤ 1
   · simp only [hn, if_true]
